@@ -1311,3 +1311,21 @@ func (u *Unit) calleeGhostVal(env *SpecEnv, key string, srt Sort) T {
 	env.calleeGhost[key] = v
 	return v
 }
+
+// exclusiveExpr recognises exclusive(ptrExpr): the callee has exclusive access
+// to the location the pointer refers to (it is private to the caller).
+func (u *Unit) exclusiveExpr(env *SpecEnv, c *Clause) (SV, bool) {
+	g, isGo := c.Expr.(*SEGo)
+	if !isGo {
+		return SV{}, false
+	}
+	call, isCall := g.E.(*ast.CallExpr)
+	if !isCall {
+		return SV{}, false
+	}
+	id, isId := call.Fun.(*ast.Ident)
+	if !isId || id.Name != "exclusive" || len(call.Args) != 1 {
+		return SV{}, false
+	}
+	return u.evalExpr(env, call.Args[0]), true
+}
